@@ -989,7 +989,9 @@ func c28CheckRecords(w *c28World, report func(key, desc string)) {
 	var got *common.Snapshot
 	var err error
 	p := verifmc.Catch(func() { got, err = store.ReadLastConsensusSnapshot() })
-	if p != nil || err != nil || got == nil || got.Transactions[0] != w.last().Tx {
+	if p == nil && err == nil && got != nil && got.Transactions[0] == w.last().Tx && (got.PayloadHash() != w.last().Snap || got.Timestamp != w.last().Ts) {
+		report("history:last-consensus-differs-from-durable", fmt.Sprintf("ReadLastConsensusSnapshot answers snapshot %s@%d, the recorded one is %s@%d", got.PayloadHash(), got.Timestamp, w.last().Snap, w.last().Ts))
+	} else if p != nil || err != nil || got == nil || got.Transactions[0] != w.last().Tx {
 		w.violate(report, "records:last-unreadable", fmt.Sprintf("ReadLastConsensusSnapshot does not return the last accepted operation: %v %v %v", got, err, p))
 	}
 }
@@ -1033,6 +1035,9 @@ func TestMC_C28(t *testing.T) {
 	// vacuity guard: honest chains pass the complete admission path
 	c28Honest(c, []int{c28Mint, c28Pledge, c28Custodian})
 	c28Honest(c, []int{c28Custodian, c28Mint, c28Custodian})
+
+	// history part: replays of a recorded operation, restarts, then the next operation
+	c28History(c)
 
 	depth := verifmc.Pick(c, 3, 4)
 	c28CustFunds = depth
